@@ -492,5 +492,82 @@ def r06_12(ctx):
     from .common import int_validator_shape
     int_validator_shape(ctx)
 
+def r06_13(ctx):
+    """R06.13 the JSON emitter converts a number only when there is one: at every int()/float() applied to the option's own text in
+    get_json_values, for each symbol type the arm admits, the tests on the way imply that the text is non-empty - a visible
+    int/hex/float option may have no value at all (`\"\"`), and `float('')` / `int('', 16)` raise out of every generator that
+    uses get_json_values (JSON, config server)."""
+    from .common import FIVE_TYPES, facts_imply, type_atom_truth
+    repo = ctx.repo
+    f = repo.func("kconfgen.core:get_json_values.<locals>.write_node")
+    ctx.analysed(f.qual)
+    res = Resolver(f.node)
+    fl = Flow(f.node, resolver=res).run()
+    own = {ast.unparse(n.targets[0]) for n in ast.walk(f.node) if isinstance(n, ast.Assign) and len(n.targets) == 1 and isinstance(n.targets[0], ast.Name)
+           and ast.unparse(n.value).endswith(".str_value")}
+    n_conv = 0
+    for c in ast.walk(f.node):
+        if not (isinstance(c, ast.Call) and isinstance(c.func, ast.Name) and c.func.id in ("int", "float") and c.args):
+            continue
+        a = ast.unparse(c.args[0])
+        if a not in own and not a.endswith(".str_value"):
+            continue
+        n_conv += 1
+        gs = fl.guards_at(c) or set()
+        construct = f"get_json_values.<locals>.write_node/{ast.unparse(c)[:40]} only of a non-empty text"
+        bad_ty = None
+        for ty in FIVE_TYPES:
+            fixed = lambda leaf, ty=ty: type_atom_truth(repo, "kconfgen.core", leaf, ty)  # noqa: E731
+            # is this type admitted at all by the type tests on the way?
+            if facts_imply(gs, "False_", fixed=lambda leaf, ty=ty: (type_atom_truth(repo, "kconfgen.core", leaf, ty) if leaf != "False_" else False)):
+                continue
+            if not facts_imply(gs, res.text(c.args[0]), fixed=fixed) and not facts_imply(gs, a, fixed=fixed):
+                bad_ty = ty
+                break
+        if bad_ty:
+            ctx.bad(construct, f"for a {bad_ty} option the conversion is reached under {sorted(gs)}, which does not exclude the empty text: "
+                    f"`{c.func.id}('')` raises ValueError", f.loc(c))
+        else:
+            ctx.ok(construct, f.loc(c))
+    if n_conv < 3:
+        raise AnalysisError(f"only {n_conv} conversions of the option's own text in get_json_values")
+
+
+def r06_14(ctx):
+    """R06.14 the active range is looked up for every option, visible or not: in Symbol.str_value each range search iterates
+    `self.ranges` itself - not a filtered or conditional view of it - and is not placed under a visibility test. A promptless or
+    currently hidden option still gets a value (defaults, set), and it is the clamp that keeps it inside its range."""
+    from .common import EVALUATED, expand_locals, parse_key
+    repo = ctx.repo
+    f = repo.func(f"{CORE}:Symbol.str_value")
+    ctx.analysed(f.qual)
+    fl = Flow(f.node, resolver=Resolver(f.node)).run()
+    loops = [n for n in ast.walk(f.node) if isinstance(n, ast.For) and "self.ranges" in ast.unparse(n.iter)]
+    if len(loops) < 2:
+        raise AnalysisError(f"only {len(loops)} range searches in Symbol.str_value")
+    for i, lp in enumerate(loops):
+        construct = f"Symbol.str_value/range search #{i + 1} covers all ranges of every option"
+        it = ast.unparse(lp.iter)
+        gs = fl.guards_at(lp) or set()
+        vis = [k for k, p in gs if any(t in expand_locals(f.node, parse_key(k)) for t in (".visibility", "vis"))]
+        if it != "self.ranges":
+            ctx.bad(construct, f"the search iterates `{it}`: for some options no range is ever active and the value is exposed unclamped", f.loc(lp))
+        elif vis:
+            ctx.bad(construct, f"the search runs only under {sorted(vis)}: an invisible option's default or `set` value is exposed unclamped", f.loc(lp))
+        else:
+            ctx.ok(construct, f.loc(lp))
+
+
+def r06_15(ctx):
+    """R06.15 the text and its numeric shadow come from the same entry: the `set` / `set default` searches of Symbol.str_value stop at
+    the first active entry - if the search went on, the `else` arm of a later inactive entry would reset the number the clamp
+    compares (val_num := 0) while the text keeps the earlier literal, and an out-of-range literal passes unclamped."""
+    from .common import first_match_loops
+    n = first_match_loops(ctx, [f"{CORE}:Symbol.str_value"], "the clamp then compares another number than the text that is exposed",
+                          suffixes=(".weak_rev_values", ".rev_values"))
+    if n < 4:
+        raise AnalysisError(f"only {n} set / set default searches found in Symbol.str_value")
+
+
 def rules():
-    return [("R06.12", r06_12, 1), ("R06.11", r06_11, 3), ("R06.10", r06_10, 12), ("R06.6", r06_6, 14), ("R06.7", r06_7, 3), ("R06.1", r06_1, 7), ("R06.2", r06_2, 6), ("R06.3", r06_3, 2), ("R06.4", r06_4, 20), ("R06.5", r06_5, 3), ("R06.8", r06_8, 12), ("R06.9", r06_9, 1)]
+    return [("R06.15", r06_15, 4), ("R06.14", r06_14, 2), ("R06.13", r06_13, 3), ("R06.12", r06_12, 1), ("R06.11", r06_11, 3), ("R06.10", r06_10, 12), ("R06.6", r06_6, 14), ("R06.7", r06_7, 3), ("R06.1", r06_1, 7), ("R06.2", r06_2, 6), ("R06.3", r06_3, 2), ("R06.4", r06_4, 20), ("R06.5", r06_5, 3), ("R06.8", r06_8, 12), ("R06.9", r06_9, 1)]
